@@ -1544,14 +1544,18 @@ theorem migrateClaims_eq_conv (ssh : Bool) (c : Option Claims) :
 /-! ### the admin API's claim validation -/
 
 
-/-- **admin_validate_sound.** What the admin API's `ValidateDurations` guarantees for a block it accepts: every
-    set duration is non-negative, `min ≤ max` and `min ≤ default` where both are set. -/
+/-- **admin_validate_sound** (full strength since fix e2d04ab).  For every block the admin API's
+    `ValidateDurations` accepts: every set duration is non-negative and `min ≤ default ≤ max` holds between every
+    two that are set (`min ≤ max`, `min ≤ default`, `default ≤ max`). -/
 theorem admin_validate_sound (d : Dur3) (h : validateDurations d = true) :
     (∀ v, d.min = some v → 0 ≤ v) ∧ (∀ v, d.max = some v → 0 ≤ v) ∧ (∀ v, d.dflt = some v → 0 ≤ v) ∧
-    (∀ a b, d.min = some a → d.max = some b → a ≤ b) ∧ (∀ a b, d.min = some a → d.dflt = some b → a ≤ b) := by
+    (∀ a b, d.min = some a → d.max = some b → a ≤ b) ∧ (∀ a b, d.min = some a → d.dflt = some b → a ≤ b) ∧
+    (∀ a b, d.dflt = some a → d.max = some b → a ≤ b) := by
   obtain ⟨mn, mx, df⟩ := d
   unfold validateDurations at h
   cases mn <;> cases mx <;> cases df <;> simp at h ⊢ <;> omega
+
+example : validateDurations { min := some (300 * second), max := some day, dflt := some (3600 * second) } = true := by decide
 
 /-- … in particular an SSH default duration set through the admin API is non-negative: provisioners created or
     updated there satisfy the configuration hypothesis of `ssh_no_crash` (ca.json provisioners do not:
@@ -1570,18 +1574,18 @@ theorem admin_validated_ssh_default_nonneg (l : LClaims) (e : Bool) (u h : Optio
     subst hd
     exact (admin_validate_sound d hh).2.2.1 v hdv
 
-/-- **admin_validate_default_above_max.** The check that should refuse `default > max` repeats `min > default`:
-    a block with default 48 h and maximum 24 h is accepted.  (For X.509 the provisioner then fails to initialise —
-    `Claimer.Validate`, answered 500 instead of 400; for SSH nothing refuses it and every default-duration SSH
-    sign is refused as too long.) -/
-theorem admin_validate_default_above_max :
-    validateDurations { max := some day, dflt := some (2 * day) } = true ∧
-    ¬ ∀ d : Dur3, validateDurations d = true → ∀ a b, d.dflt = some a → d.max = some b → a ≤ b := by
+example : validateDurations { max := some day, dflt := some (2 * day) } = false := by decide
+
+/-- **historic (fixed by e2d04ab).** The check that should refuse `default > max` repeated `min > default`: a block
+    with default 48 h and maximum 24 h was accepted.  (For X.509 the provisioner then failed to initialise — 500
+    instead of 400; for SSH nothing refused it and every default-duration SSH sign was refused as too long.) -/
+theorem admin_validate_default_above_max_before :
+    validateDurationsBefore { max := some day, dflt := some (2 * day) } = true ∧
+    ¬ ∀ d : Dur3, validateDurationsBefore d = true → ∀ a b, d.dflt = some a → d.max = some b → a ≤ b := by
   refine ⟨by decide, ?_⟩
   intro h
   have := h { max := some day, dflt := some (2 * day) } (by decide) (2 * day) day rfl rfl
   revert this
   decide
-
 
 end Verif.Validity
